@@ -18,16 +18,21 @@ pub fn run(ctx: &mut Ctx) {
     ctx.subject(&name);
     let b = ctx.cfg.bs;
     let w = ctx.cfg.par;
-    let (iv, _) = wl::iv(&mut ctx.rng, b);
+    let (iv, _) = mode_iv(ctx, b);
     // every L from b to (3w+2)*b + b - 1: number of blocks and residue chosen separately
-    let nmax = (3 * w + 3).min(wl::MAX_BYTES / b);
-    let n = match ctx.rng.below(6) {
-        0 => 1,
-        1 => 2,
-        2 => 3,
-        3 => (w + 1).min(nmax),
-        4 => (2 * w + 2).min(nmax),
-        _ => ctx.rng.range(1, nmax),
+    let nmax = (3 * w + 3).min(wl::MAX_LONG_BYTES / b);
+    let n = match ctx.rng.below(400) {
+        // rare long single calls: > 64 blocks, > 32 KiB, > 64 KiB
+        0..=7 => *ctx.rng.pick(&[65usize, 66, 130, 200, 300]),
+        8..=10 => (*ctx.rng.pick(&[32_769usize, 40_000, 65_537, 70_001])).div_ceil(b),
+        x => match x % 6 {
+            0 => 1,
+            1 => 2,
+            2 => 3,
+            3 => (w + 1).min(nmax),
+            4 => (2 * w + 2).min(nmax),
+            _ => ctx.rng.range(1, nmax),
+        },
     };
     let dl = match ctx.rng.below(5) {
         0 => b,
@@ -37,7 +42,7 @@ pub fn run(ctx: &mut Ctx) {
     }
     .max(1);
     let len = if n == 1 { b } else { (n - 1) * b + dl };
-    let (data, dc) = wl::data(&mut ctx.rng, len);
+    let (data, dc) = mode_data(ctx, len);
     let form = *ctx.rng.pick(&FORMS3);
     let fill = *ctx.rng.pick(&ALL_FILLS);
     let ctor = *ctx.rng.pick(&ALL_CTORS);
